@@ -2669,6 +2669,10 @@ def _dict_of_zip(z, base):
     while ks[0] == 'call' and ks[1] in (('ext', 'LIST'), ('ext', 'TUPLE')) and len(ks[2]) == 1:
         ks = ks[2][0]
     d = ks[2][0] if ks[0] == 'call' and ks[1] == ('meth', 'keys') and len(ks[2]) == 1 else ks
+    if vs[0] == 'call' and vs[1] == ('ext', 'itertools.repeat') and len(vs[2]) == 1 and not vs[3]:
+        # dict(zip(keys, repeat(c)))  ==  {k: c for k in keys}
+        kb = ('bv', base)
+        return ('comp', 'dict', ('tuple', (kb, vs[2][0])), (((kb,), ks, ()),))
     if vs[0] == 'comp' and vs[1] in ('list', 'gen') and len(vs[3]) == 1 and len(vs[3][0][0]) == 1:
         shape, src, ifs = vs[3][0]
         if src == ('call', ('meth', 'values'), (d,), ()) and not ifs:
